@@ -38,7 +38,7 @@ def report(ck, results, prop, what):
         if b.get("exc"):
             ck.violation(f"{what} {key}", f"{what}: tomography API raises {b['exc']} for {small}", {"job": small})
             continue
-        bad = (tcl & CLAUSES)
+        bad = {c for c in tcl if c.split(":")[-1] in CLAUSES}
         for i, c in enumerate(fcl):
             if c & CLAUSES:
                 bad = bad | {f"fitter[{i}]:" + ",".join(sorted(c & CLAUSES))}
@@ -126,4 +126,4 @@ def replay(path):
     res = tomo.run_scenarios(ck, [job], files, ck.rng, "replay")
     job, b, tcl, fcl = res[0]
     print("replayed:", b.get("exc") or sorted(tcl), [sorted(c) for c in fcl if c])
-    return 1 if (b.get("exc") or (tcl & CLAUSES) or any(c & CLAUSES for c in fcl)) else 0
+    return 1 if (b.get("exc") or any(c.split(":")[-1] in CLAUSES for c in tcl) or any(c & CLAUSES for c in fcl)) else 0
